@@ -489,7 +489,10 @@ fn faults(s: &mut Stats, names: &[&str], main: &str, files: &[(PathBuf, String)]
                     Ok(Ok(_)) => s.violation(format!("a configuration with a fault was accepted ({})", fault), || ctx("loaded without error".into())),
                     Ok(Err(e)) => {
                         if want_line {
-                            let ok = e.contains(&format!("line {}:", i + 1)) && e.contains(&fname);
+                            // the error must name the file and the line; the wording around them is not prescribed
+                            let n = (i + 1).to_string();
+                            let names_line = e.split(|c: char| !c.is_ascii_digit()).any(|tok| tok == n);
+                            let ok = names_line && e.contains(&fname);
                             if !ok {
                                 s.violation(format!("syntax error does not name the right file and line ({})", fault), || ctx(e.clone()));
                                 continue;
